@@ -4,7 +4,8 @@ import os
 import random
 import sys
 
-from common import standard_main, run_model, run_cli_many, run_cli_trickle, WORK, is_panic
+from common import standard_main, run_model, run_cli_many, run_cli_trickle, WORK, is_panic, parse_text_spectrum
+from fractions import Fraction
 from callsets import render_vcf, bgzf_compress, vcf_to_bcf, bcf_encode_hts, model_records, model_samples, cli_samples_arg, model_project, cli_project_arg
 from gen_create import random_callset, random_map, pop_sizes, random_projection
 
@@ -111,6 +112,46 @@ def check(rep, tier, seed):
                      observed={"rc": rc, "stdout": so.decode(errors="replace")[:300]}, expected=exp[:300], detail="result differs from the model on the abstract call set")
         for f in os.listdir(d):
             os.remove(os.path.join(d, f))
+    # one large call set (> 64 KiB as text and as BCF): layouts whose first non-empty BGZF block is as long as a block can be
+    # and does not lie wholly within the first 64 KiB of the stream (an empty block in front of it)
+    cols, recs = random_callset(rng, nsamples=8, nrecords=2600 if tier == "quick" else 6000, p_skip=0.1)
+    recs = [[g if g != "." else "./." for g in r] for r in recs]
+    vcf = render_vcf(cols, recs)
+    hts = bcf_encode_hts(vcf)
+    big = {"vcf": vcf, "vcf.gz": bgzf_compress(vcf),
+           "vcf.gz-max-stored-first": bgzf_compress(vcf, first_stored_max=True),
+           "vcf.gz-empty-then-max-stored": bgzf_compress(vcf, first_stored_max=True, empty_first=True),
+           "vcf.gz-tiny-then-default": bgzf_compress(vcf, sizes=[1, 65280]),
+           "bcf-hts-raw": hts, "bcf-hts": bgzf_compress(hts),
+           "bcf-hts-empty-then-max-stored": bgzf_compress(hts, first_stored_max=True, empty_first=True),
+           "bcf-hts-max-stored-first": bgzf_compress(hts, first_stored_max=True)}
+    rep.coverage["large_call_set_bytes"] = {k: len(v) for k, v in big.items()}
+    jobs, labels = [], []
+    for name, data in big.items():
+        path = os.path.join(d, "big.%s" % name)
+        open(path, "wb").write(data)
+        for t in (1, 4):
+            jobs.append((["create", "--threads", str(t), path], b"")); labels.append("%s via path threads=%d" % (name, t))
+            jobs.append((["create", "--threads", str(t)], data)); labels.append("%s via stdin threads=%d" % (name, t))
+    res = run_cli_many(jobs, timeout=300)
+    exp = run_model(["create 0 %s ALL - %s" % (",".join(cols), model_records(recs))])[0]
+    ref = res[0]
+    for lab, job, (rc, so, se) in zip(labels, jobs, res):
+        rep.count("large-forms:" + lab.split()[0], lab, True)
+        if is_panic(rc, se) or (rc, so) != (ref[0], ref[1]):
+            rep.fail(kind="property-oracle", cls="forms:large:" + lab.split()[0].split("-")[0], case="large call set as %s" % lab,
+                     argv=["sfs"] + [a for a in job[0] if not a.startswith(d)], stdin_hex=big[lab.split()[0]].hex(),
+                     observed={"rc": rc, "stdout": so.decode(errors="replace")[:300], "stderr": se.decode(errors="replace")[-300:]},
+                     expected={"rc": ref[0], "stdout": ref[1].decode(errors="replace")[:300], "reference": labels[0]},
+                     regenerate="seeded generator: random_callset(nsamples=8) rendered as " + lab.split()[0],
+                     detail="the same records (%d of them, %d bytes as VCF) supplied in another container layout gave a different result" % (len(recs), len(vcf)))
+    e = exp.split()
+    p = parse_text_spectrum(ref[1]) if ref[0] == 0 else None
+    if not (exp.startswith("OK") and p is not None and p[0] == [int(x) for x in e[1].split(",")] and [Fraction(t) for t in p[1]] == [Fraction(x) for x in e[2].split(",")]):
+        rep.fail(kind="cli-vs-model", cls="forms:large:model", case="large call set", argv=["sfs", "create"], observed={"rc": ref[0], "stdout": ref[1].decode(errors="replace")[:300]},
+                 expected=exp[:300], detail="result on the large call set differs from the model on the abstract call set")
+    for f in os.listdir(d):
+        os.remove(os.path.join(d, f))
     rep.assumptions += ["partial: decoding, inflate and worker-thread scheduling live in noodles/flate2 and are sampled, not proved",
                         "BCF forms are produced by noodles' own writer from the VCF text (bare '.' genotypes are written './.')"]
 
